@@ -88,7 +88,7 @@ func c14LengthSpec(ps int, lengths []int, text bool, lay dbgen.Layout) *dbgen.Sp
 }
 
 func runC14(r *ev.Run) {
-	r.Rule = "(i) page sizes 512 (quick) and 1024 (thorough): every value length 0..3*pagesize as the payload of a table cell and of an index cell, text and blob, overflow chains contiguous and scattered; other page sizes: every length within -8..+3 of each local/overflow threshold (X, M+n(U-4), K<=X flips) for the first 3 overflow page counts; (ii) every serial type: integers at min/min+1/-1/max-1/max and both sides of every width boundary, also stored in non-minimal widths, constants 0/1, real bit patterns, text/blob lengths at the 1/2/3-byte serial type boundaries; (iii) varints of every length 1..9 in rowids, payload sizes, header sizes (records of 1..300 columns) and serial types; each family built by the independent encoder (SQLite must read the same values: conformance) and by real SQLite from the same values; read through Select, Table.Scan and Index.Scan (after keyed scans that start in the middle of the index). non-trivial = cases with overflow pages or multi-byte varints"
+	r.Rule = "(i) page sizes 512 (quick) and 1024 (thorough): every value length 0..3*pagesize as the payload of a table cell and of an index cell, text and blob, overflow chains contiguous and scattered; other page sizes: every length within -8..+3 of each local/overflow threshold (X, M+n(U-4), K<=X flips) for the first 3 overflow page counts; (ii) every serial type: integers at min/min+1/-1/max-1/max and both sides of every width boundary, also stored in non-minimal widths, constants 0/1, real bit patterns, text/blob lengths at the 1/2/3-byte serial type boundaries; (iii) varints of every length 1..9 in rowids, payload sizes, header sizes (records of 1..300 columns) and serial types; each family built by the independent encoder (SQLite must read the same values: conformance) and by real SQLite from the same values; read through Select, Table.Scan and Index.Scan (after keyed scans that start in the middle of the index). non-trivial = cases with overflow pages or multi-byte varints; dense pages: tables, an index and a WITHOUT ROWID table of records without a body byte (NULL, 0, 1, empty text, empty blob) written by SQLite in key order at page sizes 512, 1024 and 4096"
 	// ---- (i) lengths
 	type lenJob struct {
 		ps      int
@@ -174,6 +174,77 @@ func runC14(r *ev.Run) {
 	// ---- (ii)+(iii) serial types and varints
 	c14Values(r)
 	c14Wide(r)
+	c14Dense(r)
+}
+
+// c14Dense: the smallest records there are - columns holding NULL, the constants 0 and 1, an empty text or an
+// empty blob (no body byte), rowids below 128 and then two-byte rowids - pack more cells into a page than any
+// other content: written by SQLite itself in rowid order (which fills every leaf to the last byte), one and
+// two columns, with an index over them and as a WITHOUT ROWID table. Page sizes 512, 1024 and 4096.
+func c14Dense(r *ev.Run) {
+	vals := []string{"NULL", "0", "1", "''", "x''"}
+	for _, ps := range []int{512, 1024, 4096} {
+		l, err := lite.OpenMem()
+		if err != nil {
+			r.Harness("lite: %v", err)
+			return
+		}
+		l.MustExec(fmt.Sprintf("PRAGMA page_size=%d", ps))
+		l.MustExec("CREATE TABLE d1 (v); CREATE TABLE d2 (v, w); CREATE TABLE dw (k INTEGER PRIMARY KEY, v) WITHOUT ROWID")
+		n := 400
+		if ps == 4096 {
+			n = 1500
+		}
+		l.MustExec("BEGIN")
+		for i := 0; i < n; i++ {
+			l.MustExec(fmt.Sprintf("INSERT INTO d1 VALUES (%s); INSERT INTO d2 VALUES (%s, %s); INSERT INTO dw VALUES (%d, %s)", vals[i%5], vals[i%5], vals[(i/5)%5], i, vals[i%5]))
+		}
+		l.MustExec("COMMIT; CREATE INDEX d1_v ON d1 (v)")
+		img := l.Serialize()
+		r.Validated(1)
+		r.StateBytes(img)
+		desc := map[string]interface{}{"family": "dense", "page_size": ps, "rows": n, "builder": "sqlite"}
+		h, _, _, err := vpager.OpenImage(img)
+		if err != nil {
+			r.Violation("C14:open", fmt.Sprintf("database written by SQLite refused: %v", err), desc)
+			l.Close()
+			continue
+		}
+		for _, q := range []struct {
+			table string
+			cols  []string
+			sql   string
+			index string
+		}{
+			{"d1", []string{"rowid", "v"}, "SELECT rowid, v FROM d1 ORDER BY rowid", ""},
+			{"d2", []string{"rowid", "v", "w"}, "SELECT rowid, v, w FROM d2 ORDER BY rowid", ""},
+			{"dw", []string{"k", "v"}, "SELECT k, v FROM dw ORDER BY k", ""},
+			{"d1", []string{"v", "rowid"}, "SELECT v, rowid FROM d1 ORDER BY v, rowid", "d1_v"},
+		} {
+			want, err := l.Query(q.sql)
+			if err != nil {
+				r.Harness("dense oracle: %v", err)
+				continue
+			}
+			var got [][]interface{}
+			if q.index == "" {
+				got, err = SelectAll(h, q.table, q.cols...)
+			} else {
+				got, err = IndexedAll(h, q.table, q.index, q.cols...)
+			}
+			r.Eval(len(want))
+			r.NontrivialN(len(want))
+			r.Trans(1)
+			if err != nil {
+				r.Violation("C14:select-error", fmt.Sprintf("%s on a database written by SQLite (dense pages): %v", q.table, err), desc)
+				continue
+			}
+			if !RowsEq(got, want, true) {
+				r.Violation("C14:table-values:dense", q.table+" decodes differently: "+firstDiff(got, want), desc)
+			}
+		}
+		l.Close()
+	}
 }
 
 // c14Read reads table p and index p_v of image and compares with the
